@@ -150,6 +150,8 @@ class HoldDownEnds(Damp):
         else:
             st += [["drain"], ["accept", "c2", 2500]]
         st += [["recv", "c2", 1, 1500], ["send", "c2", OPENM.hex(), 0], ["send", "c2", KAM.hex(), 0], ["recv", "c2", 2, 1500], ["sleep", 40]]
+        # a second protocol error, well inside 300 s of the first, after the session had come up again: the hold-down doubles
+        st += [["send", "c2", S.frame(S.NOTIF, S.notif_body(3, 1)).hex(), 0], ["recv_eof", "c2", 1000], ["sleep", 60]]
         return {"id": self.sid, "local_as": 65001, "remote_as": 65000, "local_id": 0x0A000001, "hold": 90,
                 "passive": self.direction == "in", "idle_hold_ms": 100, "connect_retry_ms": 400, "caps": [], "on_open": None,
                 "handler": [], "est_writes": [], "holddown_ms": 900, "steps": st}
@@ -170,6 +172,11 @@ class HoldDownEnds(Damp):
         est = [cb["at"] for cb in r["cbs"] if cb["name"] == "OnEstablished" and cb["ph"] == "enter"]
         if len(est) < 2:
             bad.append("the hold-down period ended but the peer did not establish again (%s direction)" % self.direction)
+        elif len(damps) < 2:
+            bad.append("the second protocol error (after the session had come up again) did not start a hold-down")
+        elif damps[1]["args"][0] != "120000000000":
+            bad.append("second protocol error %d ms after the first: hold-down %s ns, expected 120 s (doubling)"
+                       % (damps[1]["at"] - damps[0]["at"], damps[1]["args"][0]))
         return bad
 
 
